@@ -123,6 +123,12 @@ def scenario_from_hist(scn, tables, menu, hist, opts=None, probe_every=True, int
             c = {"a": a, "t": h["t"]}
             cmds.append(c)
             if probe_every:
+                if a == "FlushSwap":
+                    # the table is probed while its flush has installed the new file store and
+                    # has not returned yet, and again once it has
+                    c["holdDone"] = True
+                    cmds += probes([cur[t.name] for t in tables], only=h["t"])
+                    cmds.append({"a": "FlushDone", "t": h["t"]})
                 cmds += probes([cur[t.name] for t in tables], only=h["t"], subsets=subsets if a == "FlushSwap" else None)
             if others is not None and a in ("FlushSwap", "Apply") and others.random() < 0.5:
                 cmds.append({"a": "RunSQL", "sql": querygen.gen_query(others, tables), "mem": others.random() < 0.7})
@@ -1256,6 +1262,18 @@ def check_C18(args):
                              allow_close=False, max_scans=4)
             for j, h in enumerate(hs):
                 yield scenario_from_hist("C18-%d-%d" % (mi, j), tabs, menu, h, probe_every=False), tabs
+        # scans that start while a flush has installed the new file store and has not yet
+        # returned (the flush is parked at flush.done): file store and memstore must be
+        # the pair of one instant
+        for fi in range(10 if quick else 80):
+            tabs = C18_TABLES
+            menu = random_menu(rng, rng.randint(5, 9), ticks=(1, 5), arrays=False, nonnumeric=False)
+            d = Directed(tabs, menu)
+            for i in range(len(menu)):
+                d.insert_and_process()
+                if rng.random() < 0.5:
+                    d.flush(rng.choice(tabs).name)
+            yield scenario_from_hist("C18-f%d" % fi, tabs, menu, d.h, probe_every=True), tabs
         # directed placements: build a table state, hold a scan after its j-th
         # row, then drive further points (into rows already delivered, rows not
         # yet delivered and new rows) and optionally a flush through the gates
@@ -1444,6 +1462,13 @@ def c17_set(rng, t, now):
     chosen = rng.sample(cands, k)
     if not any(c.get("probe") for c in chosen):
         chosen[0] = cands[rng.randint(0, 1)]
+    if rng.random() < 0.5:
+        # a member whose own row handling fails on the table's rows (a string function over a
+        # numeric dimension): it ends with an error, alone and in company, and the queries that
+        # share its scan are none of its business
+        chosen.insert(rng.randrange(len(chosen) + 1),
+                      rng.choice([dict(sql="SELECT %s FROM %s GROUP BY SUBSTR(a, 0, 1) AS a1" % (dec[0], t.name), mem=True),
+                                  dict(sql="SELECT %s FROM %s WHERE SUBSTR(a, 0, 1) = 'x'" % (dec[0], t.name), mem=True)]))
     for i, c in enumerate(chosen):
         c["id"] = "q%d" % i
     return chosen
